@@ -131,11 +131,12 @@ def gen_short_string(rng):
     kinds = set()
     npieces = rng.below(7)
     prev_open_decimal = False
+    prev_z = False
     for _ in range(npieces):
         k = rng.below(12)
         if k < 3:
             c = rng.choice("abz XYZ09_-[]{}#%=")
-            if prev_open_decimal and c.isdigit():
+            if (prev_open_decimal and c.isdigit()) or (prev_z and c == " "):
                 c = "x"
             src += c.encode()
             val += c.encode()
@@ -171,6 +172,8 @@ def gen_short_string(rng):
             src += b"\\z" + ws.encode()
             kinds.add("z")
             prev_open_decimal = False
+            prev_z = True
+            continue
         elif k == 8:
             c = rng.choice([0, 0x41, 0x7f, 0x80, 0x7ff, 0x800, 0xffff, 0x10000, 0x10ffff, 0x110000, 0x1fffff, 0x200000, 0x3ffffff,
                             0x4000000, 0x7fffffff, rng.below(1 << 31)])
@@ -193,6 +196,7 @@ def gen_short_string(rng):
             src += b"--"
             val += b"--"
             prev_open_decimal = False
+        prev_z = False
     src += q.encode()
     return "short:" + ("+".join(sorted(kinds)) or "plain"), bytes(src), bytes(val)
 
@@ -320,6 +324,11 @@ def check_invalid_literals(ck, gvh, st):
         status, ret, msg = lua_result(l)
         ck.count("b:invalid-literal")
         ck.case("invalid:" + s, True)
+        if status == "compile_error" and not msg.startswith("chunk:") and "escape sequence out of range" in msg:
+            k = ck.known_match(lambda k_: k_["id"] == "C12-escape-range-error-no-line")
+            if k is not None:
+                ck.known_finding(k)
+                continue
         if status != "compile_error" or not re.match(r"^chunk:\d+:", msg):
             st["go_ne_s"] += 1
             ck.violation("malformed literal %r is not rejected with a positioned syntax error: %s %s" % (s, status, (ret + " " + msg)[:80]),
@@ -341,8 +350,8 @@ PROGRAMS = [
       "local s = \"a\\tb\\065\\x41\\u{0041}\\z\n\n  c\" emit( s , # s ) return s == [[a\tbAAAc]]"], ""),
     (["local a, b = 7, 3 return a // b, a % b, a / b, a & b, a | b, a ~ b, ~a, a << b, a >> 1, a < b, a <= b, a ~= b, not a == b, a .. b",
       "local a , b = 0x7 , 03 return ( a // b ) , ( a % b ) , ( a / b ) , ( a & b ) , ( a | b ) , ( a ~ b ) , ( ~ a ) , ( a << b ) , ( a >> 1 ) , ( a < b ) , ( a <= b ) , ( a ~= b ) , ( ( not a ) == b ) , ( a .. b )"], ""),
-    (["local t = setmetatable({}, {__index = function(_, k) return k .. '!' end, __call = function(self, x) return x end}) emit(t.x, t'lit', t{1}[1], t:y'z') return t.a.b",
-      "local t = setmetatable ( { } , { __index = function ( _ , k ) return k .. \"!\" end ; __call = function ( self , x ) return x end , } ) emit ( t [ 'x' ] , t ( [[lit]] ) , ( t ( { 1 } ) ) [ 1 ] , t : y ( \"z\" ) ) return ( t [ \"a\" ] ) [ 'b' ]"], ""),
+    (["local t = setmetatable({}, {__index = function(_, k) return k .. '!' end, __call = function(self, x) return x end}) emit(t.x, t'lit', t{1}[1], ('ab'):rep(2)) return t.a.b",
+      "local t = setmetatable ( { } , { __index = function ( _ , k ) return k .. \"!\" end ; __call = function ( self , x ) return x end , } ) emit ( t [ 'x' ] , t ( [[lit]] ) , ( t ( { 1 } ) ) [ 1 ] , ( \"ab\" ) : rep ( 2 ) ) return ( t [ \"a\" ] ) [ 'b' ]"], ""),
     (["for i = 1, 3 do if i == 2 then goto cont end emit(i) ::cont:: end local n = 0 while n < 2 do n = n + 1 end repeat n = n - 1 until n == 0 return n",
       "for i=1,3 do\n if i==2 then\n  goto cont\n end\n emit(i)\n ::cont::\nend\nlocal n=0;\nwhile n<2 do n=n+1 end;\nrepeat n=n-1 until n==0;\nreturn n;"], ""),
 ]
